@@ -170,13 +170,46 @@ theorem invalidate_total {R : RTbl V} (wf : WF R) (a : Name) (s : Dict V) :
     ∃ s', invalidateTop R a s = some s' :=
   ⟨_, invalidateTop_eq wf a s⟩
 
-/-- After `invalidate_attrs(obj, a)`: every transitive dependant of `a` is deleted (or back at
-its default), cached or not, read or not yet read; nothing else changed. -/
+/-- After `invalidate_attrs(obj, a)`: every transitive dependant of `a` other than `a` itself is
+deleted (or back at its default), cached or not, read or not yet read; nothing else changed. `a`
+itself (when it lies on a dependency cycle, e.g. two members invalidated by `'*'`) keeps what it
+holds unless ANOTHER node of such a cycle held a value (`CycleFull`): then that node's `delattr`
+succeeds, re-enters `invalidate_attrs` with a fresh `_visited` and comes back to `a`. -/
 theorem invalidate_eq {R : RTbl V} (wf : WF R) (a : Name) (s : Dict V) :
     ∃ s', invalidateTop R a s = some s' ∧
-      ∀ x, (Reach R a x → s' x = clearedVal R x) ∧ (¬ Reach R a x → s' x = s x) :=
-  ⟨_, invalidateTop_eq wf a s, fun x =>
-    ⟨fun h => clearReach_of_reach s h, fun h => clearReach_of_not s h⟩⟩
+      (∀ x, (Reach R a x → x ≠ a → s' x = clearedVal R x) ∧ (¬ Reach R a x → s' x = s x)) ∧
+      (¬ CycleFull R a s → s' a = s a) ∧ (Reach R a a → CycleFull R a s → s' a = clearedVal R a) :=
+  ⟨_, invalidateTop_eq wf a s,
+    fun x => ⟨fun h hne => clearReach_of_reach s h hne, fun h => clearReach_of_not s h⟩,
+    fun h => clearReach_self_keep s h, fun hr h => clearReach_self_drop s hr h⟩
+
+/-- **An assignment survives its own invalidation round** (fix 0ce7c4e): after a successful
+`setattr` / `with_<a>` / … of `a`, the instance holds the assigned value — whatever depends on
+what (`'*'` members, dependency cycles through `a`) — provided no other node on a dependency
+cycle through `a` held a value at that moment. -/
+theorem set_keeps_own_value {R : RTbl V} (wf : WF R) {a : Name} {v : V} {tc : Bool} {s s' : Dict V}
+    (h : mutateAttr R a v tc s = .ok s') (hc : ¬ CycleFull R a (dset s a (Tag.user, v))) :
+    s' a = some (Tag.user, v) := by
+  rw [mutateAttr_ok wf h, clearReach_self_keep _ hc]
+  simp [dset]
+
+/-- In particular when `a` is on no dependency cycle at all. -/
+theorem set_keeps_own_value_of_acyclic {R : RTbl V} (wf : WF R) {a : Name} {v : V} {tc : Bool} {s s' : Dict V}
+    (h : mutateAttr R a v tc s = .ok s') (hr : ¬ Reach R a a) : s' a = some (Tag.user, v) :=
+  set_keeps_own_value wf h (fun ⟨_, _, h1, h2, _⟩ => hr (h1.trans h2))
+
+/-- … and the converse, which is what the library still does after 0ce7c4e (reported as a finding):
+if another node of a cycle through `a` holds a value (a filled cache, an override), the value just
+assigned to `a` is discarded again. -/
+theorem set_drops_own_value_of_full_cycle {R : RTbl V} (wf : WF R) {a : Name} {v : V} {tc : Bool} {s s' : Dict V}
+    (h : mutateAttr R a v tc s = .ok s') (hc : CycleFull R a (dset s a (Tag.user, v))) : s' a = none := by
+  obtain ⟨y, _, h1, h2, _⟩ := hc
+  have hr : Reach R a a := h1.trans h2
+  have hdf : dfltOf R a = none := by
+    cases hd : dfltOf R a with
+    | none => rfl
+    | some w => exact absurd hr (wf.acyc a (by simp [hd]))
+  rw [mutateAttr_ok wf h, clearReach_self_drop _ hr ⟨y, ‹_›, h1, h2, ‹_›⟩, clearedVal_none hdf]
 
 /-- The result does not depend on the order in which the dependants are visited (the library
 iterates over a `set` union): any table with the same entries in another order gives the same state. -/
@@ -187,9 +220,9 @@ theorem invalidate_order_irrelevant {R : RTbl V} (wf : WF R) (im' : Key → List
 
 /-- The visited-set recursion from any intermediate call also terminates (any `_visited`, any fuel
 above the measure). -/
-theorem invalidate_terminates {R : RTbl V} (wf : WF R) (fuel : Nat) (a : Name) (vis : List Name) (s : Dict V)
-    (h : R.fuel ≤ fuel) : ∃ r, invalidate R fuel a vis s = some r := by
-  obtain ⟨vis', s', h', _⟩ := inv_post wf fuel a vis s (Nat.lt_of_lt_of_le (mu_lt_fuel R a vis s) h)
+theorem invalidate_terminates {R : RTbl V} (wf : WF R) (fuel : Nat) (r a : Name) (vis : List Name) (s : Dict V)
+    (hv : VisOK R r vis s) (h : R.fuel ≤ fuel) : ∃ res, invalidate R fuel a vis s = some res := by
+  obtain ⟨vis', s', h', _⟩ := inv_post wf fuel r a vis s (Nat.lt_of_lt_of_le (mu_lt_fuel R a vis s) h) hv
   exact ⟨_, h'⟩
 
 /-! ## The invariant -/
@@ -491,6 +524,24 @@ example : (∀ k, 2 ∈ ovT.code.invMap k ↔ k ∈ [Key.nm 0, Key.nm 1]) ∧
     (redefault_keeps_invalidated_by ovT _ _ rfl rfl (d := 3) rfl rfl
       (sp := ⟨.attr (some 7), [.nm 0]⟩) rfl Key.star).2⟩,
    by decide⟩
+
+/-- `set_keeps_own_value` on the table with two `'*'` properties (`w` = 3 overridable, `w2` = 4):
+`x.w = -1` with `w2` not yet read keeps the override, and the next read returns it. -/
+example :
+    let s0 : Dict Int := dset Dict.empty 0 (Tag.user, 1)
+    ∃ s', (step exT.code s0 (.setattr 3 (-1)) true).res = .ok s' ∧ s' 3 = some (Tag.user, -1) ∧
+      (readAttr exT.code 3 s').val = .ok (-1) ∧ (readAttr exT.code 3 s').calls = [] := by
+  intro s0
+  refine ⟨_, rfl, ?_, ?_, ?_⟩ <;> first | decide | rfl
+
+/-- … and `set_drops_own_value_of_full_cycle` on the same table: with the cache of `w2` filled
+(`x.w2; x.w = -1`) the override is discarded again and the next read calls the getter. -/
+example :
+    let s0 : Dict Int := dset (dset Dict.empty 0 (Tag.user, 1)) 4 (Tag.cache, 0)
+    ∃ s', (step exT.code s0 (.setattr 3 (-1)) true).res = .ok s' ∧ s' 3 = none ∧ s' 4 = none ∧
+      (readAttr exT.code 3 s').calls = [3] := by
+  intro s0
+  refine ⟨_, rfl, ?_, ?_, ?_⟩ <;> decide
 
 /-- The hypotheses of `fresh_reachable_partial` hold for a table with a spec subclass. -/
 example : OwnerCoversDependants exT :=
